@@ -703,7 +703,18 @@ func c08SingleCloser(c *Ctx, cfns []*ssa.Function) {
 				}
 			})
 		}
-		_ = ch
+		// a removal helper: the channel is a parameter, and this function deletes from a table whose entries close() closes
+		if _, isParam := ch.(*ssa.Parameter); isParam && table == "" {
+			ir.EachInstr(cs.fn, func(_ *ssa.BasicBlock, _ int, in ssa.Instruction) {
+				if call, ok := in.(*ssa.Call); ok {
+					if b, ok := call.Call.Value.(*ssa.Builtin); ok && b.Name() == "delete" {
+						if fl, _, ok := ir.LoadedField(call.Call.Args[0]); ok && tableClosers[fl.Key()] {
+							table = fl.Key()
+						}
+					}
+				}
+			})
+		}
 		if table == "" {
 			continue
 		}
